@@ -1013,12 +1013,18 @@ impl ChainMonitor {
 
     // push compact proof transactions through, simulating a streamed block
     fn push_transactions(&self, block_hash: &BlockHash, txs: &[Transaction]) -> BlockDecodeState {
-        let mut state = self.get_state();
+        // The decode state works on a copy of the monitor state.  Do not hold the state lock
+        // while the transactions are processed: the listener calls back into the channel
+        // (commitment point provider), and channel requests lock the channel before the
+        // monitor state.
+        let mut decode_state = {
+            let mut state = self.get_state();
 
-        // we are synced if we see a compact proof
-        state.saw_block = true;
+            // we are synced if we see a compact proof
+            state.saw_block = true;
 
-        let mut decode_state = BlockDecodeState::new_with_block_hash(&*state, block_hash);
+            BlockDecodeState::new_with_block_hash(&*state, block_hash)
+        };
 
         let mut listener = PushListener {
             commitment_point_provider: &*self.commitment_point_provider,
@@ -1107,22 +1113,28 @@ impl ChainListener for ChainMonitor {
     where
         F: FnOnce(&mut dyn push_decoder::Listener),
     {
-        let mut state = self.get_state();
-        let saw_block = state.saw_block;
+        // As in push_transactions, the monitor state lock is not held while the listener runs
+        // (lock order where both are needed: state, then decode state).
+        let saw_block = {
+            let (saw_block, mut decode_state_lock) = {
+                let state = self.get_state();
+                let mut decode_state_lock = self.decode_state.lock().expect("lock");
+                decode_state_lock.get_or_insert_with(|| BlockDecodeState::new(&*state));
+                (state.saw_block, decode_state_lock)
+            };
+            let decode_state = decode_state_lock.as_mut().expect("just inserted");
 
-        let mut decode_state_lock = self.decode_state.lock().expect("lock");
-
-        let decode_state = decode_state_lock.get_or_insert_with(|| BlockDecodeState::new(&*state));
-
-        let mut listener = PushListener {
-            commitment_point_provider: &*self.commitment_point_provider,
-            decode_state,
-            saw_block,
+            let mut listener = PushListener {
+                commitment_point_provider: &*self.commitment_point_provider,
+                decode_state,
+                saw_block,
+            };
+            f(&mut listener);
+            listener.saw_block
         };
-        f(&mut listener);
 
         // update the saw_block flag, in case the listener saw a block start event
-        state.saw_block = listener.saw_block;
+        self.get_state().saw_block = saw_block;
     }
 }
 
